@@ -1,6 +1,8 @@
 package props
 
 import (
+	"unicode/utf8"
+	"unicode"
 	"bufio"
 	"encoding/json"
 	"fmt"
@@ -108,9 +110,23 @@ func c02NameOK(v *c02Variant, name string) bool {
 	if name == "" {
 		return false
 	}
+	ascii := true
 	for i := 0; i < len(name); i++ {
-		if name[i] <= ' ' || name[i] >= 0x7f {
-			return false // blank, control, non-ASCII: outside the quantifier
+		if name[i] <= ' ' || name[i] == 0x7f {
+			return false // blank, control: outside the quantifier
+		}
+		ascii = ascii && name[i] < 0x80
+	}
+	if !ascii {
+		// printable characters beyond ASCII: valid UTF-8 of printable, non-blank runes only; not for strict
+		// Phylip, whose 10-character name field does not say whether it counts bytes or characters
+		if !utf8.ValidString(name) || (v.Fmt == align.FORMAT_PHYLIP && v.Strict) {
+			return false
+		}
+		for _, r := range name {
+			if !unicode.IsPrint(r) || unicode.IsSpace(r) {
+				return false
+			}
 		}
 	}
 	switch v.Fmt {
